@@ -187,8 +187,8 @@ pub fn fmt_num(v: f64, int_spelling: bool) -> String {
         format!("{}", v as i64)
     } else {
         let s = format!("{v:?}");
-        debug_assert!(!s.contains('e'), "literal {s} needs exponent syntax");
-        s
+        // no exponent syntax in the language: Display never uses one and still round-trips
+        if s.contains('e') { format!("{v}") } else { s }
     }
 }
 
@@ -1028,6 +1028,21 @@ impl<'a> Gen<'a> {
         let ops = [BinOp::Lt, BinOp::Le, BinOp::Gt, BinOp::Ge, BinOp::Eq, BinOp::Ne];
         let cmp = |g: &mut Self, budget: &mut usize| {
             let op = *g.rng.pick(&ops);
+            let paths = g.float_paths(sc);
+            if !paths.is_empty() && g.rng.chance(1, 7) {
+                // operands that are equal or differ in the last place: x ? x, x ? x + 1e-16, ...
+                // (an approximate comparison, or one that mishandles inf - inf, shows here)
+                g.mark("near_equal_comparison");
+                let a = g.rng.pick(&paths).clone();
+                let tiny = *g.rng.pick(&[1e-16, -1e-16, 2e-16, 5e-17, 0.0]);
+                let b = match g.rng.below(4) {
+                    0 => a.clone(),
+                    1 => E::Bin(BinOp::Add, Box::new(a.clone()), Box::new(E::Num(tiny, false))),
+                    2 => E::Bin(BinOp::Mul, Box::new(a.clone()), Box::new(E::Num(1.0000000000000002, false))),
+                    _ => E::Bin(BinOp::Sub, Box::new(E::Bin(BinOp::Add, Box::new(a.clone()), Box::new(E::Num(0.1, false)))), Box::new(E::Num(0.1, false))),
+                };
+                return if g.rng.chance(1, 2) { E::Bin(op, Box::new(a), Box::new(b)) } else { E::Bin(op, Box::new(b), Box::new(a)) };
+            }
             let a = g.expr_f(sc, budget);
             let b = g.expr_f(sc, budget);
             E::Bin(op, Box::new(a), Box::new(b))
@@ -1283,6 +1298,18 @@ impl<'a> Gen<'a> {
         }
     }
 
+    /// pattern for a value of type `t`: a variable, or (deep) nested tuple patterns down to the leaves
+    fn leaf_pat(&mut self, t: &Ty, sc: &mut Scope, deep: bool) -> Pat {
+        match t {
+            Ty::Tup(ts) if deep => Pat::Tup(ts.iter().map(|t| self.leaf_pat(t, sc, deep)).collect()),
+            _ => {
+                let n = self.fresh("dv");
+                sc.vars.push((n.clone(), t.clone(), *t == Ty::F));
+                Pat::Var(n)
+            }
+        }
+    }
+
     fn stmt(&mut self, sc: &mut Scope, budget: &mut usize) -> Stmt {
         let assignable: Vec<String> = sc.vars.iter().filter(|v| v.2).map(|v| v.0.clone()).collect();
         let self_tuple = matches!(self.self_ty, Some(Ty::Tup(_))) && self.state_allowed();
@@ -1307,15 +1334,14 @@ impl<'a> Gen<'a> {
                 self.used_state = true;
                 let ty = self.self_ty.clone().unwrap();
                 let Ty::Tup(ts) = &ty else { unreachable!() };
-                let p = Pat::Tup(
-                    ts.iter()
-                        .map(|t| {
-                            let n = self.fresh("dv");
-                            sc.vars.push((n.clone(), t.clone(), *t == Ty::F));
-                            Pat::Var(n)
-                        })
-                        .collect(),
-                );
+                if ts.iter().any(|t| *t != Ty::F) {
+                    self.mark("self_nested_tuple");
+                }
+                // the type of `self` is not known to the checker when a pattern variable bound to
+                // one of its tuple-typed parts is projected (same class as projection-from-self):
+                // under that quarantine the pattern goes down to the float leaves
+                let deep = self.feat.avoids("projection-from-self");
+                let p = Pat::Tup(ts.iter().map(|t| self.leaf_pat(t, sc, deep)).collect());
                 Stmt::Let(p, None, E::SelfE)
             }
             0 => {
@@ -1328,15 +1354,7 @@ impl<'a> Gen<'a> {
                 };
                 let p = if e == E::SelfE && self.feat.avoids("projection-from-self") {
                     match &ty {
-                        Ty::Tup(ts) => Pat::Tup(
-                            ts.iter()
-                                .map(|t| {
-                                    let n = self.fresh("dv");
-                                    sc.vars.push((n.clone(), t.clone(), *t == Ty::F));
-                                    Pat::Var(n)
-                                })
-                                .collect(),
-                        ),
+                        Ty::Tup(ts) => Pat::Tup(ts.iter().map(|t| self.leaf_pat(t, sc, true)).collect()),
                         _ => self.bind_pat(&ty, sc, 0),
                     }
                 } else {
@@ -1409,7 +1427,16 @@ impl<'a> Gen<'a> {
         let np = if stateful { np } else { np.max(1) };
         let params = self.gen_params(np, !stateful, true);
         let ret = if stateful && self.feat.self_tuple && self.feat.tuples && self.rng.chance(1, 5) {
-            Ty::Tup(vec![Ty::F, Ty::F])
+            // flat and nested tuple-valued self (the nested ones are read through `let (a, b) = self`
+            // and ordinary projections of a / b): the feed cell is as wide as the flattened value
+            let pair = || Ty::Tup(vec![Ty::F, Ty::F]);
+            match self.rng.below(6) {
+                0 | 1 => pair(),
+                2 => Ty::Tup(vec![pair(), Ty::F]),
+                3 => Ty::Tup(vec![Ty::F, pair()]),
+                4 => Ty::Tup(vec![Ty::F, Ty::F, Ty::F]),
+                _ => Ty::Tup(vec![pair(), pair()]),
+            }
         } else if self.rng.chance(1, 5) {
             self.rand_data_ty(0)
         } else {
@@ -1418,11 +1445,14 @@ impl<'a> Gen<'a> {
         let mut sc = Scope { vars: params.iter().map(|p| (p.name.clone(), p.ty.clone(), false)).collect() };
         self.stateful_ok = stateful;
         self.state_depth_left = depth_left;
-        let flat = match &ret {
-            Ty::F => true,
-            Ty::Tup(ts) => ts.iter().all(|t| *t == Ty::F),
-            _ => false,
-        };
+        fn tuples_only(t: &Ty) -> bool {
+            match t {
+                Ty::F => true,
+                Ty::Tup(ts) => ts.iter().all(tuples_only),
+                _ => false,
+            }
+        }
+        let flat = tuples_only(&ret);
         self.self_ty = if stateful
             && ret.is_data()
             && (flat || !self.feat.avoids("projection-from-self"))
